@@ -204,7 +204,7 @@ func TestVerifC11Lib(t *testing.T) {
 	rec := kit.NewRec("C11", "station-ingest")
 	defer rec.Close()
 	h := verifC11LibSetup(t)
-	kit.C11Drive(rec, kit.C11Entry{Name: verifC11LibEntry, N: kit.Tier(40000, 2000000), Workers: 8, Budget: 40 * time.Second,
+	kit.C11Drive(rec, kit.C11Entry{Name: verifC11LibEntry, N: kit.Tier(40000, 1000000), Workers: 8, Budget: 40 * time.Second,
 		Gen: verifC11LibGen, Exec: h.verifExec, SampleEvery: 5000})
 	// panics in the goroutines ingest started would kill the process: wait until they are all gone
 	if left := kit.WaitNoGoroutineIn(90*time.Second, "lib.tryShareRegistrationOverAPI", "lib.handleConnectingTpReg", "dtls.(*Transport).Connect"); left != nil {
